@@ -28,6 +28,10 @@ type verifObs struct {
 	index    int8
 }
 
+// verifObsInternals fills the fields of an observation that name unexported
+// parts of Context (set by c10_wb.go; nil when that file is left out).
+var verifObsInternals func(o *verifObs, c *Context)
+
 func verifObserveCtx(o *verifObs) HandlerFunc {
 	return func(c *Context) {
 		if o.seen {
@@ -47,142 +51,18 @@ func verifObserveCtx(o *verifObs) HandlerFunc {
 		o.aborted = c.IsAborted()
 		o.status = c.StatusCode()
 		o.length = c.Length()
-		if w, ok := c.Resp.(*responseWriter); ok {
-			o.ownResp = w == &c.writer
+		// (without the white-box probe these two are not observable and keep their pristine values)
+		o.ownResp, o.index = true, 0
+		if verifObsInternals != nil {
+			verifObsInternals(o, c)
 		}
 		o.req = c.Req
 		o.raw = c.RawWriter()
-		o.index = c.index
 	}
 }
 
-func verifHarness_C10_dirtyContext() {
-	r := New(HandleMethodNotAllowed)
-	o := &verifObs{}
-	obs := verifObserveCtx(o)
-	r.GET("/s", obs)
-	r.GET("/d/{id}", obs)
-	r.NotFound(obs)
-	r.NotAllowed(obs)
-
-	// a context in an arbitrary dirty state, as an earlier request may leave it
-	ctx := r.ctxPool.Get().(*Context)
-	prevRec := verifNewWriter()
-	ctx.Init(prevRec, verifRequest("POST", "/old"))
-	staleRan := false
-	stale := func(c *Context) { staleRan = true }
-	ctx.index = verifInt8("index")
-	if verifBool("hasData") {
-		ctx.Set("stale", "v")
-		ctx.Set(CTXAllowedMethods, []string{"PUT"})
-		ctx.Set(CTXRecoverResult, "boom")
-	}
-	if verifBool("hasParams") {
-		ctx.Params = Params{"id": "old", "zz": "1"}
-	}
-	for i := verifChoice("nerr", 3); i > 0; i-- {
-		ctx.AddError(verifErr{})
-	}
-	nh := verifChoice("nh", 4)
-	hs := make(HandlersChain, nh, 5)
-	for i := range hs {
-		hs[i] = stale
-	}
-	ctx.handlers = hs
-	ctx.writer.status = verifInt("status")
-	ctx.writer.length = verifInt("length")
-	if verifBool("foreignResp") {
-		ctx.Resp = verifNewWriter()
-	}
-	if verifBool("foreignReq") {
-		ctx.Req = verifRequest("PUT", "/other")
-	}
-	r.ctxPool.Put(ctx)
-
-	kind := verifChoice("req", 4)
-	rec := verifNewWriter()
-	var req *http.Request
-	idLen := 0
-	var idVal string
-	switch kind {
-	case 0:
-		req = verifRequest("GET", "/s")
-	case 1:
-		idLen = verifLen("idlen", 1, 3)
-		idVal = verifString("id", idLen)
-		for i := 0; i < idLen; i++ {
-			verifAssume(verifAnd(idVal[i] > 0x20, verifAnd(idVal[i] < 0x7f, idVal[i] != '/')))
-		}
-		req = verifRequest("GET", "/d/"+idVal)
-	case 2:
-		req = verifRequest("GET", "/nowhere")
-	case 3:
-		req = verifRequest("POST", "/s")
-	}
-	r.ServeHTTP(rec, req)
-
-	verifAssert(o.seen, "the request's handler ran")
-	verifAssert(!staleRan, "no handler of an earlier request runs")
-	if o.ctx == ctx {
-		verifCover("C10 context reused")
-	}
-	verifAssert(!o.hasStale, "values stored by an earlier request are gone")
-	switch kind {
-	case 0, 1:
-		verifAssert(o.nData == 2 && o.hasName && o.hasPath && !o.hasAllow, "context data holds only what dispatch set for this request")
-	case 2:
-		verifAssert(o.nData == 0, "context data is empty for a not-found request")
-	case 3:
-		verifAssert(o.nData == 1 && o.hasAllow, "context data holds only the allowed methods of this request")
-	}
-	if kind == 1 {
-		verifAssert(o.nParams == 1 && !o.stale, "Params holds exactly this request's variables")
-		verifAssert(o.id == idVal, "Params carries this request's value")
-	} else {
-		verifAssert(o.nParams == 0, "no parameters from an earlier request")
-	}
-	verifAssert(o.nErrors == 0, "no errors from an earlier request")
-	verifAssert(!o.aborted, "not aborted")
-	verifAssert(o.index == 0, "the chain cursor points at the first handler")
-	verifAssert(o.status == 0, "StatusCode() starts at 0")
-	verifAssert(o.length == -1, "Length() starts at 'not written'")
-	verifAssert(o.ownResp, "Resp is the context's own writer")
-	verifAssert(o.req == req, "Req is the new request")
-	verifAssert(o.raw == http.ResponseWriter(rec), "the writer wraps the new underlying writer")
-	verifAssert(rec.whCalls == 1 && prevRec.whCalls == 0, "the response goes to the new writer only, committed once")
-}
 
 
-// HandleContext re-dispatches a context a handler already used: everything
-// request-scoped except the writer must be reset before the new dispatch.
-func verifHarness_C10_handleContext() {
-	r := New()
-	o := &verifObs{}
-	r.GET("/d/{id}", verifObserveCtx(o))
-	ctx := r.ctxPool.Get().(*Context)
-	rec := verifNewWriter()
-	req := verifRequest("GET", "/d/7")
-	ctx.Init(rec, req)
-	ctx.index = verifInt8("index")
-	if verifBool("hasData") {
-		ctx.Set("stale", "v")
-	}
-	if verifBool("hasParams") {
-		ctx.Params = Params{"id": "old", "zz": "1"}
-	}
-	for i := verifChoice("nerr", 3); i > 0; i-- {
-		ctx.AddError(verifErr{})
-	}
-	staleRan := false
-	ctx.handlers = HandlersChain{func(c *Context) { staleRan = true }}
-	r.HandleContext(ctx)
-	verifAssert(o.seen && !staleRan, "the re-dispatched context runs the matched route's handlers only")
-	verifAssert(!o.hasStale && o.nData == 2, "context data holds only what this dispatch set")
-	verifAssert(o.nParams == 1 && o.id == "7" && !o.stale, "Params holds exactly this request's variables")
-	verifAssert(o.nErrors == 0 && !o.aborted && o.index == 0, "errors, abort state and cursor are reset")
-	verifAssert(o.ownResp && o.req == req, "the context keeps its request and its own writer")
-	verifCover("C10 HandleContext")
-}
 
 
 // Cross-check by explicit histories: K requests on one router (custom
@@ -208,23 +88,74 @@ func verifC10Router(globals int) (*Router, *[]string) {
 	r.GET("/s", tag("s"), pass)
 	r.GET("/d/{id}", tag("d"), pass, pass)
 	r.POST("/p", tag("p"))
+	// a handler that edits the query values it was given (to build a "next page" link, say)
+	r.GET("/q", func(c *Context) {
+		q := c.QueryValues()
+		log = append(log, "q:"+c.Query("page")+","+c.Query("size", "-")+","+q.Get("page"))
+		q.Set("page", "2")
+		q.Del("size")
+		c.WriteString("q")
+	})
+	// a handler that hands a copy of its context (and its data map) to something that outlives the request
+	r.GET("/c", func(c *Context) {
+		// what outlived the earlier requests writes to what it was given, while this request is in flight
+		for _, cp := range verifC10Kept {
+			cp.Set("job", "done")
+		}
+		for _, d := range verifC10KeptData {
+			if d != nil {
+				d["job"] = "done"
+			}
+		}
+		_, stale := c.Get("job")
+		log = append(log, "c:"+verifBoolStr(stale)+verifBoolStr(len(c.Data()) > 0))
+		c.Set("mine", "1")
+		verifC10Kept = append(verifC10Kept, c.Copy())
+		verifC10KeptData = append(verifC10KeptData, c.Data())
+		c.WriteString("c")
+	})
 	return r, &log
+}
+
+// what earlier requests handed out and may still write to
+var (
+	verifC10Kept     []*Context
+	verifC10KeptData []map[string]any
+)
+
+func verifBoolStr(b bool) string {
+	if b {
+		return "1"
+	}
+	return "0"
 }
 
 func verifHarness_C10_history() {
 	globals := verifChoice("globals", 2)
-	reqs := []verifC03Req{{"GET", "/s"}, {"GET", "/d/7"}, {"GET", "/nowhere"}, {"POST", "/s"}, {"POST", "/p"}}
+	reqs := []verifC03Req{{"GET", "/s"}, {"GET", "/d/7"}, {"GET", "/nowhere"}, {"POST", "/s"}, {"POST", "/p"}, {"GET", "/q"}, {"GET", "/c"}}
 	r, log := verifC10Router(globals)
+	verifC10Kept, verifC10KeptData = nil, nil
 	K := verifParam("K")
 	for k := 0; k < K; k++ {
 		q := reqs[verifChoice("req", len(reqs))]
 		*log = nil
+		// whatever outlived the earlier requests writes to what it was given
+		for _, cp := range verifC10Kept {
+			cp.Set("job", "done")
+		}
+		for _, d := range verifC10KeptData {
+			if d != nil {
+				d["job"] = "done"
+			}
+		}
 		rec := verifNewWriter()
-		r.ServeHTTP(rec, verifRequest(q.method, q.path))
+		r.ServeHTTP(rec, verifRequestQ(q.method, q.path, "page=1&size=10"))
 		got := *log
+		keptN := len(verifC10Kept)
 		fresh, flog := verifC10Router(globals)
 		frec := verifNewWriter()
-		fresh.ServeHTTP(frec, verifRequest(q.method, q.path))
+		fresh.ServeHTTP(frec, verifRequestQ(q.method, q.path, "page=1&size=10"))
+		verifC10Kept, verifC10KeptData = verifC10Kept[:keptN], verifC10KeptData[:keptN]
 		same := len(got) == len(*flog) && rec.whStatus == frec.whStatus && string(rec.body) == string(frec.body)
 		if same {
 			for i := range got {
